@@ -86,6 +86,10 @@ CORPUS = {
     "list-of-strings": S("names = ['a', 'bb']\nk = 0\nwhile True:\n    mon.write(names[k % 2])\n    k = k + 1\n    sleep(1)\n"),
     "main-loop-continue": S("n = 0\nwhile True:\n    n = n + 1\n    if n % 2 == 0:\n        continue\n    mon.write(n)\n    sleep(1)\n"),
     "function-continue": S("def odd_sum(n):\n    t = 0\n    for i in range(n):\n        if i % 2 == 0:\n            continue\n        t = t + i\n    return t\nk = 3\nwhile True:\n    r = odd_sum(k)\n    mon.write(r)\n    k = k + 1\n    sleep(1)\n"),
+    "global-derived-after-reassignment": S("period = 100\nperiod = 250\nhalf = period * 2 + 1\nmon.write(half)\nwhile True:\n    sleep(half)\n    mon.write(period)\n"),
+    "global-derived-after-branch-and-loop": S("base = 3\nc = 1\nif c > 0:\n    base = 10\nlimit = base + 1\nfor i in range(2):\n    base = base * 2\ntop = base + limit\nmon.write(limit)\nmon.write(top)\nwhile True:\n    mon.write(top + limit)\n    sleep(1)\n"),
+    "global-derived-chain": S("a = 1\na = 4\nb = a + 1\nb = b * 2\nc = a + b\nmon.write(c)\n"),
+    "chained-comparison-runtime": S("lo = 2\nv = 0\nhi = 6\nwhile True:\n    if lo <= v < hi:\n        mon.write('in')\n    else:\n        mon.write('out')\n    k = 0\n    while 0 <= k < v:\n        k = k + 1\n    mon.write(k)\n    mon.write(1 < v <= 3)\n    v = v + 1\n    sleep(1)\n"),
     # ---- sleeps
     "sleep-expression": S("d = 10\nwhile True:\n    sleep(d)\n    sleep(d * 2)\n    mon.write(d)\n    d = d + 5\n"),
     "sleep-in-branches": S("k = 0\nwhile True:\n    if k % 2 == 0:\n        sleep(100)\n    else:\n        sleep(250)\n    k = k + 1\n    mon.write(k)\n"),
